@@ -9,7 +9,7 @@ A *host program* is a JSON AST (the same one `Driver/Sdk.lean` reads):
           | {"k":"addf","f":FUT,"o":VAL,"m":int|null}                Future.add
           | {"k":"addr","h":n,"o":VAL,"m":int|null}                  RegFuture.add
           | {"k":"if","cb":bool,"c":cond,"a":VAL,"b":VAL,"body":[..]} conn.if_xx(a,b,fn) / with a.if_xx(b)
-          | {"k":"loop","s":..,"e":..,"d":..,"body":[..]}            with conn.loop(..) as i   (binds raw handle)
+          | {"k":"loop","s":..,"e":..,"d":..,"body":[..]["r":i]}     with conn.loop(..[, loop_register=R<i>]) as i   (binds raw handle)
           | {"k":"lbody",...}                                        conn.loop_body(fn,..)     (binds RegFuture handle)
           | {"k":"foreach","arr":a,"idx":bool,"body":[..]}           arr.foreach()/enumerate() (binds raw handle)
           | {"k":"until","n":max,"body":[..],"ef":VAL,"ev":int,"cl":[..]}  conn.loop_until     (binds RegFuture handle)
@@ -165,6 +165,16 @@ class RealRun:
             return obj
         return self.val(v)
 
+    def loop_reg(self, s):
+        """explicit `loop_register` argument: absent -> None; even index as str, odd as Register object"""
+        r = s.get("r")
+        if r is None:
+            return None
+        if r % 2 == 0:
+            return "R%d" % r
+        from netqasm.lang.encoding import RegisterName
+        return Register(RegisterName.R, r)
+
     # -- statements
     def block(self, body):
         for s in body:
@@ -224,14 +234,14 @@ class RealRun:
                 with ctx:
                     self.block(s["body"])
         elif k == "loop":
-            with conn.loop(s["e"], s["s"], s["d"]) as i:
+            with conn.loop(s["e"], s["s"], s["d"], self.loop_reg(s)) as i:
                 self.regs.append(("raw", i))
                 self.block(s["body"])
         elif k == "lbody":
             def body(_c, rf):
                 self.regs.append(("rf", rf))
                 self.block(s["body"])
-            conn.loop_body(body, s["e"], s["s"], s["d"])
+            conn.loop_body(body, s["e"], s["s"], s["d"], self.loop_reg(s))
         elif k == "foreach":
             arr = self.arr(s["arr"])
             if s["idx"]:
@@ -655,6 +665,9 @@ class Gen:
         self.max_depth = max_depth
         self.budget = max_stmts
         self.wild = wild
+        self.act = set()  # simulated active R registers (to pick interesting explicit loop registers)
+        self.explicit_p = 0.25  # probability that a loop / loop_body names its register
+        self.allow_active = False  # explicit register that is in use (the SDK must reject it)
         self.arrs = []  # {"len":n, "defd":bool, "small":bool}
         self.regs = []  # {"kind":"rf"/"raw", "live":bool, "hi":exclusive upper bound of values or None, "loopvar":bool}
         self.binders_in_bodies = binders_in_bodies
@@ -727,6 +740,28 @@ class Gen:
             return {"h": rng.choice(raw)}
         return {"v": rng.choice([0, 1, 1, 2, 3, -1, 5])}
 
+    def take(self, explicit=None):
+        r = explicit if explicit is not None else next((i for i in range(16) if i not in self.act), None)
+        if r is not None:
+            self.act.add(r)
+        return r
+
+    def pick_explicit(self):
+        """None (SDK chooses) or an explicit register: the lowest free one, another free one, or —
+        only when allowed — one that is in use."""
+        rng = self.rng
+        if rng.random() >= self.explicit_p:
+            return None
+        free = [i for i in range(16) if i not in self.act]
+        if not free:
+            return None
+        mode = rng.choice(["lowest", "lowest", "free", "active" if self.allow_active else "free"])
+        if mode == "lowest":
+            return free[0]
+        if mode == "active" and self.act:
+            return rng.choice(sorted(self.act))
+        return rng.choice(free)
+
     def new_reg(self, kind, hi=None, loopvar=False):
         self.regs.append({"kind": kind, "live": True, "hi": hi, "loopvar": loopvar})
         return len(self.regs) - 1
@@ -787,6 +822,7 @@ class Gen:
                 return None
             v = rng.randrange(0, 4)
             self.new_reg("rf")
+            self.take()
             return {"k": "reg", "v": v}
         if k == "qop":
             g = [rng.randrange(7) for _ in range(rng.choice([0, 1, 1, 2]))]
@@ -835,24 +871,36 @@ class Gen:
             stop = start + cnt * step
             lo, hi = min(start, stop - step if cnt else start), max(start, stop - step if cnt else start)
             h = self.new_reg("raw" if k == "loop" else "rf", hi=(hi + 1) if lo >= 0 else None, loopvar=True)
+            rg = self.pick_explicit()
+            was_active = rg is not None and rg in self.act
+            r_taken = None if was_active else self.take(rg)
             body = self.body(depth + 1, no_binders or not self.binders_in_bodies)
+            if r_taken is not None:
+                self.act.discard(r_taken)
             self.regs[h]["live"] = False
-            return {"k": k, "s": start, "e": stop, "d": step, "body": body}
+            out = {"k": k, "s": start, "e": stop, "d": step, "body": body}
+            if rg is not None:
+                out["r"] = rg
+            return out
         if k == "foreach":
             a = self.pick_arr()
             if a is None:
                 return None
             h = self.new_reg("raw", hi=self.arrs[a]["len"], loopvar=True)
+            r_taken = self.take()
             body = self.body(depth + 1, no_binders or not self.binders_in_bodies)
+            self.act.discard(r_taken)
             self.regs[h]["live"] = False
             return {"k": "foreach", "arr": a, "idx": rng.random() < 0.5, "body": body}
         if k == "until":
             n = rng.choice([1, 2, 3, 4])
             h = self.new_reg("rf", hi=n, loopvar=True)
+            r_taken = self.take()
             body = self.body(depth + 1, no_binders or not self.binders_in_bodies, allow_empty=rng.random() < 0.15)
             ef = self.val(cond=True)
             ev = rng.choice([0, 0, 1, 1, 2, -1])
             cl = self.body(depth + 1, no_binders=True) if rng.random() < 0.5 else []
+            self.act.discard(r_taken)
             self.regs[h]["live"] = False
             return {"k": "until", "n": n, "body": body, "ef": ef, "ev": ev, "cl": cl}
         if k == "try":
@@ -888,6 +936,8 @@ class Gen:
 def wild_program(rng):
     """Programs that exercise the error paths of the builder (syntactic stream only)."""
     g = Gen(rng, max_depth=rng.choice([3, 6, 18]), max_stmts=60, wild=True)
+    g.allow_active = True
+    g.explicit_p = 0.4
     mode = rng.choice(["deep", "meas", "handles", "types", "zero"])
     if mode == "deep":  # nest until the registers run out
         depth = rng.choice([10, 14, 15, 16, 17, 18])
@@ -945,13 +995,23 @@ def completed_op(rng, depth=3):
             return {"k": "addf", "f": {"a": 1, "f": {"a": 0, "i": 1}}, "o": {"f": {"a": 2, "f": {"a": 0, "i": 0}}}, "m": 2}
         return {"k": "addf", "f": fut(), "o": val(), "m": rng.choice([None, 2, 5])}
 
-    def op(d):
+    def op(d, act):
         if d == 0:
             return leaf()
         k = rng.choice(["leaf", "if", "if", "if1", "loop", "lbody", "foreach", "until", "try"])
-        body = [op(d - 1) for _ in range(rng.choice([1, 1, 2]))]
         if k == "leaf":
             return leaf()
+        free = [i for i in range(16) if i not in act]
+        inner = act
+        rg = None
+        if k in ("loop", "lbody", "foreach", "until"):
+            # the register the operation will hold while its body is built
+            held = free[0]
+            if k in ("loop", "lbody") and rng.random() < 0.4:
+                rg = rng.choice([free[0], free[0], rng.choice(free)])  # explicit: lowest free / any free
+                held = rg
+            inner = act | {held}
+        body = [op(d - 1, inner) for _ in range(rng.choice([1, 1, 2]))]
         if k == "if":
             a = val()
             return {"k": "if", "cb": True if "v" in a else rng.random() < 0.5, "c": rng.choice(["eq", "ne", "lt", "ge"]),
@@ -960,7 +1020,10 @@ def completed_op(rng, depth=3):
             return {"k": "if", "cb": rng.random() < 0.5, "c": rng.choice(["ez", "nz"]), "a": {"f": fut()},
                     "b": {"v": 0}, "body": body}
         if k in ("loop", "lbody"):
-            return {"k": k, "s": 0, "e": rng.choice([1, 2]), "d": 1, "body": body}
+            out = {"k": k, "s": 0, "e": rng.choice([1, 2]), "d": 1, "body": body}
+            if rg is not None:
+                out["r"] = rg
+            return out
         if k == "foreach":
             return {"k": "foreach", "arr": rng.randrange(3), "idx": rng.random() < 0.5, "body": body}
         if k == "until":
@@ -968,7 +1031,7 @@ def completed_op(rng, depth=3):
                     "cl": [leaf()] if rng.random() < 0.4 else []}
         return {"k": "try", "n": 1, "body": body}
 
-    return op(rng.randrange(depth + 1))
+    return op(rng.randrange(depth + 1), frozenset())
 
 
 def long_sequence(rng, n_ops, flush_every, depth=3):
@@ -1114,28 +1177,14 @@ def tag_known(prog, outcomes, f, cache):
          resolved to; (b) a register is returned (ret_reg) only by the subroutine that created its RegFuture.
          Feature: the same location read through a brand-new handle object is right (a), or the controller
          register is right and the program is right once the flushes in between are removed (b).
-    F42  a register obtained from new_register() in an earlier subroutine is overwritten by the assembler's
-         scratch register / the array-initialisation loop of a later subroutine that does not mention it.
-         Feature: handle created by `reg` before an earlier flush; removed by dropping the flushes in between.
+    (F42 — a new_register() register used as assembler scratch by a later subroutine — is fixed: not tagged.)
     """
     feat = f.get("feature")
-    if feat in ("trace", "ctrl-array", "array", "raise", "future-handle") and \
-            not (feat == "future-handle" and f.get("fresh") == f.get("direct")):
-        # consequence of F42: a new_register() handle is used after a later flush
-        if not reg_handle_used_across_flush(prog):
-            return None
-        if "noflush" not in cache:
-            s2, d2 = oracle(without_inner_flushes(prog), outcomes)
-            cache["noflush"] = [] if s2 == "ok" else (d2 if s2 == "fail" else None)
-        rest = cache["noflush"]
-        if rest is None or any(x.get("feature") == feat for x in rest):
-            return None
-        return "F42"
     if feat == "future-handle" and f.get("fresh") == f.get("direct"):
         return "F41"
     if feat == "reg-handle" and f.get("fresh") == f.get("direct"):
         return "F41"
-    if feat in ("reg-handle", "ctrl-reg"):
+    if feat == "reg-handle" and f.get("ctrl") == f.get("direct"):
         if "noflush" not in cache:
             s2, d2 = oracle(without_inner_flushes(prog), outcomes)
             cache["noflush"] = [] if s2 == "ok" else (d2 if s2 == "fail" else None)
@@ -1143,15 +1192,91 @@ def tag_known(prog, outcomes, f, cache):
         if rest is None:
             return None
         still = any(x.get("feature") == feat and x.get("handle") == f.get("handle") for x in rest)
-        if still:
-            return None
-        if feat == "reg-handle" and f.get("ctrl") == f.get("direct"):
-            return "F41"
-        if feat == "ctrl-reg":
-            return "F42"
-        if feat == "reg-handle":  # host value follows the clobbered controller register
-            return "F42"
+        return None if still else "F41"
     return None
+
+
+# ----------------------------------------------------------------------------- model semantics cross-checks
+
+
+def _norm_trace_model(tr):
+    out = []
+    for e in tr or []:
+        if e[0] == "init":
+            out.append(["g", "init", 0])
+        elif e[0] == "g":
+            out.append(["g", GATES[e[1]].lower(), 0])
+        elif e[0] == "meas":
+            out.append(["meas", 0, e[1]])
+    return out
+
+
+SKIP_INVALID = ("value outside 32 bits", "step budget")
+
+
+def cross_hsem(driver, prog, outcomes, model=None, fuel=4000):
+    """Lean `HostSem` (driver op sdk.hsem) vs the direct Python interpreter `Direct` on one program.
+    Compared only when the model's builder accepts the program (build errors are not run-time
+    semantics).  Returns (status, detail): status in ok / skip / differ."""
+    if model is None:
+        model = driver.call({"op": "sdk.run", "p": prog})
+    if model.get("err") is not None:
+        return "skip", "build error"
+    try:
+        d = Direct(outcomes).run(prog)
+        dres = {"ok": True, "views": d.views, "trace": d.trace}
+    except Invalid as e:
+        if any(str(e).startswith(x) for x in SKIP_INVALID):
+            return "skip", str(e)
+        dres = {"ok": False, "why": str(e)}
+    h = driver.call({"op": "sdk.hsem", "p": prog, "outs": list(outcomes), "fuel": fuel})
+    if not dres["ok"]:
+        if h["ok"]:
+            return "differ", {"what": "Direct rejects the program, HostSem evaluates it", "direct": dres["why"]}
+        return "ok", "both invalid"
+    if not h["ok"]:
+        return "differ", {"what": "HostSem rejects the program, Direct evaluates it"}
+    hviews = [{"arr": {a: l for a, l in v["arr"]}, "reg": {hh: x for hh, x in v["reg"]}} for v in h["views"]]
+    if hviews != dres["views"]:
+        k = next((i for i, (x, y) in enumerate(zip(hviews, dres["views"])) if x != y), -1)
+        return "differ", {"what": "view after flush %d" % k,
+                          "hostsem": hviews[k] if k >= 0 else len(hviews),
+                          "direct": dres["views"][k] if k >= 0 else len(dres["views"])}
+    if _norm_trace_model(h["trace"]) != dres["trace"]:
+        return "differ", {"what": "trace", "hostsem": _norm_trace_model(h["trace"])[:12], "direct": dres["trace"][:12]}
+    return "ok", None
+
+
+def cross_exec(driver, prog, outcomes, fuel=60000):
+    """Lean `ProtoExec` run of the MODEL's proto-subroutines (driver op sdk.exec) vs the real SDK ->
+    assembler -> bytes -> real Executor on the same program: arrays, handle registers, trace after
+    every flush.  Validates the hand-written label-level semantics (and, indirectly, C03's step)."""
+    e = driver.call({"op": "sdk.exec", "p": prog, "outs": list(outcomes), "fuel": fuel})
+    if e.get("builderr"):
+        return "skip", "build error"
+    r = RealRun(execute=True, outcomes=outcomes).run(prog, read=True)
+    if r.err is not None:
+        if e["ok"]:
+            if r.err[1] == "steplimit":
+                return "skip", "steplimit"
+            return "differ", {"what": "real controller faults, ProtoExec runs", "real": r.err, "exec_err": r.exec_err}
+        return "ok", "both fault"
+    if not e["ok"]:
+        return "differ", {"what": "ProtoExec faults / does not halt, real controller runs"}
+    states = [x for x in e["states"] if x is not None]
+    reads = r.reads
+    # flushes that sent nothing leave no state on either side
+    real_states = [rv for rv, sub in zip(reads, r.subs) if sub is not None]
+    if len(states) != len(real_states):
+        return "differ", {"what": "number of executed subroutines", "model": len(states), "real": len(real_states)}
+    for k, (ms, rv) in enumerate(zip(states, real_states)):
+        marr = {a: l for a, l in ms["arr"]}
+        rarr = {a: v for a, v in rv["ctrl"]["arrays"].items() if v is not None}
+        if marr != rarr:
+            return "differ", {"what": "arrays after subroutine %d" % k, "model": marr, "real": rarr}
+    if _norm_trace_model(e["trace"]) != r.trace():
+        return "differ", {"what": "trace", "model": _norm_trace_model(e["trace"])[:12], "real": r.trace()[:12]}
+    return "ok", None
 
 
 # ----------------------------------------------------------------------------- shrinking
